@@ -337,9 +337,13 @@ reg("C03", runner="sync", needs_cli=True, rule=_ATTACK_RULE, diffs=_ATTACK_DIFF,
     timeout={"quick": 900, "thorough": 3000})
 reg("C04", runner="sync", rule=_ATTACK_RULE, diffs=_ATTACK_DIFF,
     clauses={401: "pacer consulted with wrong hits/elapsed arguments", 402: "more hits started than the pacer had released by then (a hit started before its wait was over)",
-             403: "pacer consulted after the duration had elapsed", 404: "more than one hit released after the deadline", 405: "a hit was released (or the pacer consulted) after the pacer said stop"},
-    assumptions=_ATTACK_ASSUME, trusted_base=_ATTACK_TB,
-    level_text="pace_args_hits, pace_args_elapsed, no_early_hit, deadline and stop_means_stop are proved in Coq as trace properties of every run of the attack LTS with virtual time (adversarial pacer, any durations); tie by trace acceptance of scripted real attacks under synctest with exact virtual timestamps.",
+             403: "pacer consulted after the duration had elapsed", 404: "more than one hit released after the deadline", 405: "a hit was released (or the pacer consulted) after the pacer said stop",
+             406: "real ConstantPacer: more hits had started by some instant than the schedule Freq*t/Per allows",
+             407: "real ConstantPacer attack did not end, or results and started hits differ in number"},
+    assumptions=_ATTACK_ASSUME + ["the scripted pacer also answers 'wait forever' (math.MaxInt64) once time has passed: no hit may start, and the attack must still end once (virtual) forever is over",
+                                  "40 (thorough 1500) attacks with the real ConstantPacer (1 .. 2^20 hits per 7 us .. 1 min, 20..220 hits, 1..8 workers, answers taking up to 3*max-workers intervals) run in virtual time; the instant every hit reaches the transport is judged against the schedule (attack_loop_constant_on_schedule: at most Freq*t/Per hits have started by t) and the duration"],
+    trusted_base=_ATTACK_TB,
+    level_text="pace_args_hits, pace_args_elapsed, no_early_hit, deadline, stop_means_stop, ticks_are_pacer_answers and loop_keeps_pacer_schedule (for every pacer keeping a per-call contract, every reachable state of the loop - any workers, interleaving, Stop calls, late wake-ups - is on the pacer's schedule) are proved in Coq as trace properties of every run of the attack LTS with virtual time (adversarial pacer, any durations); tie by trace acceptance of scripted real attacks under synctest with exact virtual timestamps, and real ConstantPacer attacks judged against the schedule.",
     technique="Coq inductive invariants over a timed LTS + trace acceptance under synctest",
     timeout={"quick": 900, "thorough": 3000})
 
